@@ -266,6 +266,14 @@ def corpus():
     # recorded times at and next to the Unix epoch (reproducible archives, container layers): 0.0 is a time like any other
     ep = [f('layer/etc/hostname', ['r', 8, 33], 0), f('layer/etc/motd', ['r', 9, 12], 1), f('readme', ['r', 10, 40], 0, 500_000_000)]
     out.append({'root': 'T', 'files': ep, 'scraped': [['dump/%d.chk' % i, ['o', i], None] for i in range(3)]})
+    # files NAMED like the columns of the database, and names that differ by a temporary-file suffix (a recovery that stages its copies
+    # under <name>.part / .tmp must not lose the recorded file of that very name); the suffixed contents are met FIRST by the sorted walk
+    cn = [f('path', ['r', 81, 30], 1_410_000_000), f('sub/path', ['r', 82, 31], 1_410_000_100), f('md5', ['r', 83, 32], 1_410_000_200)]
+    out.append({'root': 'T', 'files': cn, 'scraped': [['%d.chk' % i, ['o', i], None] for i in range(3)]})
+    tp = [f('dl/setup.exe', ['r', 84, 50], 1_420_000_000), f('dl/setup.exe.part', ['r', 85, 20], 1_420_000_100), f('dl/setup.exe.tmp', ['r', 86, 21], 1_420_000_200),
+          f('dl/setup.exe~', ['r', 87, 22], 1_420_000_300), f('dl/setup.exe.bak', ['r', 88, 23], 1_420_000_400)]
+    out.append({'root': 'T', 'files': tp, 'scraped': [['a%d' % i, ['o', i], None] for i in (1, 2, 3, 4)] + [['b0', ['o', 0], None]]})
+    out.append({'root': 'T', 'files': tp, 'scraped': [['a0', ['o', 0], None]] + [['b%d' % i, ['o', i], None] for i in (1, 2, 3, 4)]})
     # folder layouts and a used output folder (see exec_case)
     out.append({'root': 'T', 'files': base, 'scraped': flat, 'layout': 'sibling', 'oroot': 'recup'})
     out.append({'root': 'T', 'files': base, 'scraped': flat, 'prefill': 'mtime'})
